@@ -166,6 +166,49 @@ def upload(n, style, last, odkind, how, seg_len=7, second=False):
         sx.reach("upload-back-to-back")
 
 
+def mixed(order, n1, n2, n3=9):
+    """a history of transfers in both directions on one client object against the checking server: every transfer has
+    to satisfy the frame obligations whatever ran before it (frames are built afresh, nothing of an earlier transfer
+    shows in reserved bytes, toggles and sizes restart)"""
+    srv = RefServer("C01")
+    rig = ClientRig(srv)
+    lens = [n1, n2, n3]
+    for k, d in enumerate(order):
+        idx = sx.fresh_int("idx%d" % k, 0, 0xFFFF)
+        sub = sx.fresh_int("sub%d" % k, 0, 0xFF)
+        tag = "C01/mixed/%s/%d" % (order, k)
+        if d == "d":
+            _do_download(rig, srv, idx, sub, sx.fresh_bytes("p%d" % k, lens[k]), ("api", "raw_nosize", "api_force")[k % 3],
+                         "7", tag)
+        else:
+            style = ("seg-size", "seg-nosize", "exp-size")[k % 3] if lens[k] > 4 or lens[k] == 0 else "exp-size"
+            if style == "exp-size" and not 1 <= lens[k] <= 4:
+                style = "seg-size"
+            _one_upload(rig, srv, idx, sub, lens[k], style, "full", None, ("api", "rawall", "raw7")[k % 3], 7, tag,
+                        "v%d" % k)
+    sx.reach("mixed")
+
+
+def upload_redeclared(w1, w2):
+    """what the dictionary declares is looked at for every upload: an entry read once and then declared differently
+    (registered after a raw probe when w1 is None, or given another data type) is cut to the *current* declaration"""
+    srv = RefServer("C01")
+    od = C.odmod().ObjectDictionary()
+    if w1 is not None:
+        od.add_object(C.mkvar("num", 0x2000, 0, NUM_BY_WIDTH[w1]))
+    rig = ClientRig(srv, od)
+    tag = "C01/upload-redeclared/%s-%s" % (w1, w2)
+    _one_upload(rig, srv, 0x2000, 0, 8, "seg-size", "full", w1, "api", 7, tag + "/first", "v")
+    if w1 is None:
+        od.add_object(C.mkvar("num", 0x2000, 0, NUM_BY_WIDTH[w2]))
+    elif w2 is None:
+        od[0x2000].data_type = 0x0F
+    else:
+        od[0x2000].data_type = NUM_BY_WIDTH[w2]
+    _one_upload(rig, srv, 0x2000, 0, 8, "seg-nosize", "full", w2, "api", 7, tag + "/second", "w")
+    sx.reach("redeclared")
+
+
 def _one_upload(rig, srv, idx, sub, n, style, last, width, how, seg_len, tag, vname):
     client = rig.client
     value = sx.fresh_bytes(vname, n)
@@ -558,6 +601,12 @@ def jobs(tier):
     out.append(dict(func="download", params=dict(n=9, mode="raw_nosize", chunking="7", n2=3, mode2="api")))
     out.append(dict(func="download", params=dict(n=3, mode="api", chunking="7", n2=9, mode2="raw_nosize")))
 
+    for order in ("du", "ud", "dud", "udu", "ddu", "uud"):
+        for n1, n2 in ((9, 9), (15, 3), (3, 15), (8, 22), (0, 8), (30, 30)) if q else [(a, b) for a in (0, 3, 8, 9, 15, 30)
+                                                                                   for b in (0, 3, 8, 9, 15, 30)]:
+            out.append(dict(func="mixed", params=dict(order=order, n1=n1, n2=n2)))
+    for w1, w2 in ((None, 1), (1, 2), (4, 2), (2, None), (None, 4), (8, 1)):
+        out.append(dict(func="upload_redeclared", params=dict(w1=w1, w2=w2)))
     # uploads
     ulens = list(range(0, 17)) + [20, 21, 22, 28, 64] if q else list(range(0, 101)) + [889, 1000, 5000, 10000]
     for n in ulens:
@@ -639,7 +688,7 @@ META = dict(
                  "delivery is exercised in C03/C07)"],
     stubs=["struct", "queue (delivery hook)", "time", "io.RawIOBase/BufferedWriter/BufferedReader models", "logging",
            "Network replaced by the rig"],
-    required_reach=["download-api", "download-raw", "download-bufc", "download-bufp", "download-bufn", "back-to-back",
+    required_reach=["mixed", "redeclared", "download-api", "download-raw", "download-bufc", "download-bufp", "download-bufn", "back-to-back",
                     "upload-api", "upload-raw7", "upload-rawall", "upload-readinto", "truncated", "style-exp-size",
                     "style-exp-nosize", "style-seg-size", "style-seg-nosize", "upload-back-to-back", "step-ok",
                     "step-rejected", "read-step-ok", "read-step-rejected", "init-expedited", "init-segmented",
